@@ -16,7 +16,7 @@ void runCase(long long i, Prng& r, const Args& a) {
   const ref::Group& g = RG();
   const double u = Sc<MonS>::u(), deps = Sc<MonS>::eps();
   const bool dbl = sizeof(MonS) == 8;
-  GenOpt o; o.thetaMax = PI; o.nearPiMin = 0; o.linMax = dbl ? 1e9 : 1e4;
+  GenOpt o; o.thetaMax = PI; o.nearPiMin = 0; o.linMax = dbl ? 1e9 : 1e4; o.exactCoeff = 0.03;
   std::string lx;
   MonG X = groupFrom<MonG>(genElement<MonS>(g, r, o, lx));
   const std::string gx = GN() + "/";
